@@ -473,11 +473,34 @@ def main():
         for b in trans.get("relevant_broken", [])[:6]:
             print(f"WARNING: static tie lost for {b['key']} ({b['file']}): {b['reason']}; the correspondence run of {pid} is escalated")
 
+    # 2d. neighbouring entry points.  A property's statement also binds the *other public routes* to the same operation
+    # (the operator traits of C17, the num-traits / num-integer impls of C18): `mod.NEIGHBOURS = {"C17": regex, ...}` makes
+    # this run include the neighbour generator's requests whose operation matches, answered by the neighbour's harness bin.
+    neighbour_cases, neighbour_route = [], {}
+    if not a.replay:
+        for npid, rx in (getattr(mod, "NEIGHBOURS", None) or {}).items():
+            nmod = importlib.import_module("gen." + npid.lower())
+            nbin = getattr(nmod, "HARNESS_BIN", npid.lower())
+            nroute = getattr(nmod, "ROUTE", None) or (lambda l, _b=nbin: _b)
+            rxc = re.compile(rx)
+            nrng = random.Random(seed * 1000003 + int(npid[1:]) + 7777 * int(pid[1:]))
+            for c in nmod.gen(nrng, gtier):
+                if rxc.match(c[0]) and c[0] not in neighbour_route:
+                    b = nroute(c[0])
+                    if b.startswith("widths") or b.endswith("w"):
+                        continue                      # the neighbour's all-widths material stays with the neighbour
+                    neighbour_route[c[0]] = b
+                    neighbour_cases.append((c[0], "neighbour-" + npid) + tuple(c[2:]))
+
     # 3. harness
     from gen import widthsweep as _wsweep
     _wsweep.set_tier(gtier)
     sweeps = [] if a.replay else SWEEPS.get(pid, [])
     multi = getattr(mod, "HARNESS_BINS", None)
+    if neighbour_route:
+        multi = list(multi or [binname]) + sorted(set(neighbour_route.values()) - set(multi or [binname]))
+        _inner0 = getattr(mod, "ROUTE", None) or (lambda l, _b=binname: _b)
+        mod.ROUTE = lambda l, _i=_inner0: neighbour_route.get(l) or _i(l)
     if sweeps or a.replay:
         # all-widths sweep bins (gen/widthsweep.py, tools/gen_widths.py), used by both tiers: requests for a u8xN / i8xN
         # configuration outside the standard lists are answered by them whatever the property's own routing says
@@ -527,6 +550,7 @@ def main():
                         cases.append((l, "corpus"))
         ctx["line_offset"] = len(cases)
         cases += list(mod.gen(rng, gtier))
+        cases += neighbour_cases
         # all-widths sweep of this property's width-sensitive operations (every N = 1..1024 of the u8-digit types)
         srng = random.Random(seed * 7919 + int(pid[1:]))
         for name in sweeps:
